@@ -44,15 +44,20 @@ template <class Ad> void run_set_program(const Program& P, Ad& ad, std::function
   run_threads(P, doop, [&] { t_uniq = 0; if (pre) pre(); }, post);
   for (auto& o : P.fini) doop(o);
 }
+// Critical sections of the lock-based containers contain only plain memory accesses.  To let the scheduler interleave two
+// threads that are (wrongly) inside the same bucket at the same time, the user-supplied element operations (copy, compare,
+// hash) are scheduling points when g_cs_points is set (set_lock driver).
+extern bool g_cs_points;
+inline void cs_point() { static char dummy; if (g_cs_points) vs::sched_point(&dummy, vs::K_LOAD, 0); }
 // value type of the value-based sets: (key, id); destructor poisons so that reads of destroyed elements are detected
 struct Item {
   int key; int id;
   Item() : key(0), id(0) {} Item(int k, int i) : key(k), id(i) {} explicit Item(int k) : key(k), id(0) {}
-  Item(const Item& o) : key(o.key), id(o.id) { if (o.id == DEAD) vs::report_uad(&o, 98); }
+  Item(const Item& o) : key(o.key), id(o.id) { if (o.id == DEAD) vs::report_uad(&o, 98); cs_point(); }
   Item& operator=(const Item& o) { if (o.id == DEAD) vs::report_uad(&o, 98); key = o.key; id = o.id; return *this; }
   ~Item() { id = DEAD; }
 };
-struct item_less { template <class A, class B> bool operator()(A const& a, B const& b) const { return kof(a) < kof(b); }
+struct item_less { template <class A, class B> bool operator()(A const& a, B const& b) const { cs_point(); return kof(a) < kof(b); }
   static int kof(Item const& i) { return i.key; } static int kof(int k) { return k; } };
 struct item_cmp { template <class A, class B> int operator()(A const& a, B const& b) const { int x = item_less::kof(a), y = item_less::kof(b); return x < y ? -1 : (x > y ? 1 : 0); } };
 struct item_hash { size_t operator()(Item const& i) const { return hash_of(i.key); } size_t operator()(int k) const { return hash_of(k); }
